@@ -120,6 +120,14 @@ PROPS = {
              "each history with prescribed results and globals; the driver replays them on the real VMs and compares results and all globals of both VMs after "
              "every operation.",
         note=_TRUST + "One library program (scalar, array, struct, vector globals; aggregate locals; recursion); host values are deep-copied by the driver."),
+    "C18": dict(
+        claimed=True, level="model_checking",
+        technique="TLA+ specification CompileHistory: TLC generates every request sequence to a length (enumeration mode); the sequences are replayed in fresh processes under several hash seeds and the recorded events are validated by the same specification in trace mode (one digest per request, whatever came before)",
+        text="A library of sources that share names (same struct name with different fields, overloads, an import, vectors, wasm-able functions) x options gives "
+             "16 requests; TLC enumerates all sequences up to length 2 (quick, plus 120 sampled of length 3) / 3 (thorough); each sequence runs in a fresh process "
+             "with fresh Compiler objects under 2-8 PYTHONHASHSEED values, recording the digest of IR listing and wasm bytes per request; the events are consumed by "
+             "CompileHistory!Consume, which rejects the first event whose digest contradicts the one first seen for that request.",
+        note=_TRUST + "Digest = sha256 of the InstructionPrinter listing, the import names and the wasm bytes; the object graph beyond what the listing shows is covered by C17."),
     "C19": dict(
         claimed=True, level="model_checking",
         technique="TLA+ LEB128 decoders/encoders on 32-bit bit patterns (round-trip invariants checked by TLC over all boundary windows); every byte string the real writer produces is decoded by the TLA+ standard decoder (trace validation of writer output), modules built with the writer API are read by the TLA+ reader WasmBinary",
